@@ -761,6 +761,17 @@ example : @testRun Nat Rat _ (ratNumC (fun _ => 1) (fun _ _ => 0)) (fun _ => 0) 
     [[0], [1], [0]] := by
   simp [testRun, testEval, bufferIndex]
   exact ⟨rfl, rfl, rfl⟩
-example : (2 : Nat) ≤ 3 := by omega
+/-- hypotheses of `legacy_unsigned_penalty_positive` / `penalty_component_no_nan`: a penalty of `3u` -/
+example : 0 < 3 ∧ 3 < 2 ^ 32 := by omega
+example : @penaltyComponent Rat (ratNumC (fun _ => 1) (fun _ _ => 0)) (Pen.nat 32 3) = -3 := rfl
+example : @legacyComponent Rat (ratNumC (fun _ => 1) (fun _ _ => 0)) (Pen.nat 32 3) = 4294967293 := by
+  show (((2 ^ 32 - 3 % 2 ^ 32) % 2 ^ 32 : Nat) : Rat) = 4294967293
+  decide +kernel
+/-- the exact reading of the generated functors on a concrete example: |3 − 5| = 2, (3 − 5)² = 4 -/
+example : @Gen.errF Rat ratFloatOps .mae (some 3) 5 = 2 ∧ @Gen.errF Rat ratFloatOps .mse (some 3) 5 = 4 := by
+  have h := generated_documented_errors 3 5
+  refine ⟨h.1.trans ?_, h.2.1.trans ?_⟩
+  · simp [Rat.abs]; grind
+  · grind
 
 end Vita.C05
